@@ -163,7 +163,29 @@ impl C13 {
                 self.slices += 1;
                 ctx.c.inc("c13.slices-checked");
                 let sl = match r {
-                    Err(pn) => return Some(format!("slice_some({v}, {p:?}) panicked: {pn}")),
+                    Err(pn) => {
+                        // as-if: slice rebuilds the kept part with add()/bind(); if the same public calls
+                        // panic as well the defect is not slice's
+                        let kept = closure(&edges, v, &p);
+                        let (n, cap) = (s.n, s.cap);
+                        let rebuilt = guarded(|| {
+                            let mut ng = crate::shim::new_graph(n, cap);
+                            for v1 in &kept {
+                                ng.add(*v1);
+                                for (k, v2) in &edges[v1] {
+                                    if kept.contains(v2) {
+                                        ng.add(*v2);
+                                        ng.bind(*v1, *v2, *k);
+                                    }
+                                }
+                            }
+                        });
+                        if rebuilt.is_err() {
+                            ctx.c.inc("c13.slice-and-reference-rebuild-both-panic(skipped)");
+                            continue;
+                        }
+                        return Some(format!("slice_some({v}, {p:?}) panicked: {pn}"));
+                    }
                     Ok(Err(e)) => return Some(format!("slice_some({v}, {p:?}) returned Err: {e}")),
                     Ok(Ok(g)) => g,
                 };
